@@ -205,6 +205,25 @@ XalanOutputStream::transcode(
             {
                 fDone = true;
             }
+            else if (theSourceBytesEaten == 0 &&
+                     theTargetBytesEaten == 0 &&
+                     theTargetSize / 8 >= theRemainingBufferLength)
+            {
+                // The transcoder cannot consume the rest of the data, for
+                // example the first half of a surrogate pair at the end of
+                // the buffer, and more room will not help.  Don't loop
+                // forever, doubling the destination.
+                if (m_throwTranscodeException == true)
+                {
+                    XalanDOMString  theExceptionBuffer(theDestination.getMemoryManager());
+
+                    throw TranscodingException(
+                            theExceptionBuffer,
+                            0);
+                }
+
+                fDone = true;
+            }
             else
             {
                 assert(theTotalBytesEaten < theBufferLength);
